@@ -488,7 +488,7 @@ func Explore(run *evid.Run, spec Spec, tier string, smp *evid.Samples) Stats {
 							ok, how := confirm(h, v)
 							if !ok {
 								st.Unconfirmed++
-								fmt.Printf("WARNING unconfirmed observation %s on [%s]: %s\n", v.Sig, HistString(h), how)
+								fmt.Printf("WARNING unconfirmed observation %s on [%s]: %s -- %s\n", v.Sig, HistString(h), how, evid.Short(v.What, 400))
 								continue
 							}
 							note = " (" + how + ")"
@@ -623,4 +623,65 @@ func Finish(run *evid.Run, total Stats, smp *evid.Samples, bound string) {
 	if total.States < 2 || total.Outcomes < 2 {
 		evid.Infra("vacuous exploration: states=%d outcomes=%d", total.States, total.Outcomes)
 	}
+}
+
+// ReplayMain re-executes a stored violation without the explorer: verif-worker replay <path> [times]
+func ReplayMain(path string, times int) int {
+	b, err := os.ReadFile(path)
+	if err != nil {
+		evid.Infra("%v", err)
+	}
+	var v struct {
+		Property  string `json:"property"`
+		Signature string `json:"signature"`
+		Engine    string `json:"engine"`
+		Scenario  string `json:"scenario"`
+		Replay    struct {
+			Tier    string  `json:"tier"`
+			History []Event `json:"history"`
+		} `json:"replay"`
+	}
+	if err := json.Unmarshal(b, &v); err != nil {
+		evid.Infra("bad replay file: %v", err)
+	}
+	mk, ok := registry[v.Property]
+	if !ok || v.Engine != "E1-seqx" {
+		fmt.Printf("replay of %s artefacts (engine %s) is done by re-running the check: the stored shape/schedule is in the file\n", v.Property, v.Engine)
+		return 2
+	}
+	tier := v.Replay.Tier
+	if tier == "" {
+		tier = "quick"
+	}
+	spec := mk(tier, v.Scenario)
+	hits := 0
+	for i := 0; i < times; i++ {
+		inst := spec.New()
+		var last StepResult
+		for k, e := range v.Replay.History {
+			last = inst.Apply(e)
+			if i == 0 {
+				fmt.Printf("  %2d. %-40s %s\n", k+1, e.String(), evid.Short(last.Obs, 300))
+			}
+		}
+		if f, ok := inst.(Finalizer); ok {
+			last.Viols = append(last.Viols, f.Final()...)
+		}
+		inst.Close()
+		for _, x := range last.Viols {
+			if i == 0 {
+				fmt.Printf("  => %s: %s\n", x.Sig, evid.Short(x.What, 600))
+			}
+			if x.Sig == v.Signature {
+				hits++
+				break
+			}
+		}
+	}
+	fmt.Printf("replayed %d time(s): signature %s reproduced %d time(s)\n", times, v.Signature, hits)
+	if hits > 0 {
+		fmt.Printf("VIOLATION property=%s replay=%s\n", v.Property, path)
+		return 1
+	}
+	return 0
 }
